@@ -65,3 +65,36 @@ package batch
 //@ assert at call Fail#0: err != nil
 //@ assert at call handle#0: err == nil
 //@ modifies nothing
+
+// ---------------------------------------------------------------- read batches (C20)
+
+// The answer to a Read request may arrive split over several messages: the response
+// handed on is the concatenation of all of them in arrival order (the k-th get of the
+// response is the k-th get the stream delivered), whatever the split.
+//
+//@ func readBatch.doRequest(b, ctx, request) (res, err)
+//@ property C20
+//@ requires b.execute != nil
+//@ callback * ensures result1 == nil ==> result0 != nil && ghost(recvTotal, result0) == 0
+//@ loop 0 modifies ghost(recvTotal, stream), fields(proto.ReadResponse), fresh
+//@ loop 0 invariant stream != nil && response != nil && fresh(response) && (response.Gets == nil || fresh(response.Gets)) && len(response.Gets) == ghost(recvTotal, stream)
+//@ loop 0 invariant forall k int :: 0 <= k && k < len(response.Gets) ==> response.Gets[k] == readItem(stream, k)
+//@ ensures err == nil ==> res != nil
+//@ modifies *
+
+// Completing a read batch hands every get's callback the answer at the same position.
+//
+//@ func readBatch.handle(b, response)
+//@ property C20
+//@ requires response != nil && len(response.Gets) == len(b.gets)
+//@ requires forall i int :: 0 <= i && i < len(b.gets) ==> b.gets[i].Callback != nil
+//@ callback * pure
+//@ assert at call $dyn#0: arg0 == response.Gets[i] && arg1 == nil
+//@ modifies nothing
+
+//@ func readBatch.Fail(b, err)
+//@ property C20
+//@ requires forall i int :: 0 <= i && i < len(b.gets) ==> b.gets[i].Callback != nil
+//@ callback * pure
+//@ assert at call $dyn#0: arg0 == nil && arg1 == err
+//@ modifies nothing
